@@ -12,7 +12,9 @@ Functions under contract (all obligations generated from the source in the tree 
                                                    valid, cached fields read only while valid (INV), otherwise the GP library answers
     GPyRegression._cache_RBF_kernel                cached fields = f(current _gp), no exception                          [F12 refuted here]
     GPyRegression.__init__ x3, _init_gp x4         INV established / kept; _kernel_is_default only for the default configuration
-    GPyRegression.update x3, optimize              evidence X' = X ++ x, Y' = Y ++ y in order; INV re-established           [F13 refuted here]
+    GPyRegression.update x4, optimize x2           evidence X' = X ++ x, Y' = Y ++ y in order; INV re-established [F13]; a LinAlgError of the GP
+                                                   optimiser is absorbed (no exception escapes, cache stale, evidence intact)
+    GPyRegression.__init__ rejects x3              the three ValueError branches
   CAS tier (contracts/c10_cas.py; sympy, all real values at the listed concrete shapes):
     BolfiPosterior._gradient_unnormalized_loglikelihood x6   grad = d/dx logPhi((h - mu(x))/sqrt(v(x))), mu, v undefined functions; 0 outside
     GPyRegression.predict / predictive_gradients fast path x8  = textbook single-query GP mean / variance / gradients (n_evidence 2-3, dim 1-2)
@@ -64,7 +66,7 @@ ASSUMPTIONS = [
     'convention of elfi.model.extensions.ModelPrior (scalar for a scalar / single-point query, (n,) otherwise; property C08)',
     '1-D queries have length dim when dim > 1 (one point)',
     'fast path: one query row (the accelerated single-point prediction of the statement); kernel lengthscale > 0; at least one evidence point',
-    'gp.optimize() does not raise (the handler `except np.linalg.linalg.LinAlgError` is not analysed)',
+    'gp.optimize() either returns or raises np.linalg.LinAlgError (GPy\'s numerical failure mode; both are cases of the optimize / update contracts)',
 ]
 NOT_PROVED = [
     'returns the same means, variances and gradients as the underlying Gaussian-process library: only the identity with the textbook GP formulas is '
@@ -156,7 +158,9 @@ def replay_refuted(cname, rf):
     """a refuted obligation: look for a failing native input.  The canonical DESIGN-6 scripts first (enter the fast path / change the evidence /
     re-fit while the cache is marked valid), then the bounded search."""
     from bounded import c10 as b
-    if cname.startswith('GPyRegression.update'):
+    if cname.startswith('GPyRegression.') and 'LinAlgError' in cname:
+        order = ['update-optimize-fails', 'optimize-fails'] if cname.startswith('GPyRegression.update') else ['optimize-fails', 'update-optimize-fails']
+    elif cname.startswith('GPyRegression.update'):
         order = ['update', 'optimize', 'enter']
     elif cname.startswith('GPyRegression.optimize'):
         order = ['optimize', 'update', 'enter']
